@@ -25,7 +25,7 @@ var c15Progs = []struct {
 	{"wcoff_one_by_one", "[FORMAT \"WCOFF\"]\n[BITS 32]\n\tGLOBAL {C}\n\tGLOBAL {A}\n[SECTION .text]\n{A}:\n\tNOP\n{B}:\n\tRET\n{C}:\n\tMOV ECX,[ESP+4]\n\tRET\n", 3, true},
 }
 
-var c15Names = []string{"a", "aa", "a_", "A", "_a", "a1", "z", "Z9", "y_", "n234567890123456789012345678901234567890", "prefix89", "prefix89x", "prefix89y",
+var c15Names = []string{"a", "aa", "a_", "A", "_a", "a1", "z", "Z9", "y_", "n234567890123456789012345678901234567890", "prefix89", "prefix89x", "prefix89y", "prefix89xy", "prefix89xyz",
 	"n23456789012345678901234567890123456789X", "Aa", "aA"}
 
 func c15Fill(tmpl string, names [3]string) string {
